@@ -176,3 +176,77 @@ func c15SelectorsAllKept(c *Ctx) {
 	}
 	c.Check("C15.R9", fk+":dropped-only-as-exact-duplicate", app.Pos(), ok, "a selector is skipped only where reflect.DeepEqual of the two sorted key lists succeeded", "a configured subset selector can be dropped although it is not a duplicate of an earlier one ("+why+"): no subsets are built for it and requests carrying its criteria are served by the fallback policy - hosts that do not carry the requested metadata")
 }
+
+// c15HostOffsetsAdvance (R10): the pre-index builder identifies a host by its position in the host set.
+// initIndex walks the host set with Range and records, per key/value, the positions of the hosts that carry it in an
+// intsets.Sparse; selectHosts later turns a position back into a host with hostSet.Get(n). The position counter is a
+// variable captured by the Range callback. Clause: in every callback of initIndex that inserts the captured counter
+// into an index set, each path from the callback's entry to a return increments that counter exactly once - no early
+// return skips the increment (a host without metadata, a missing key), and none increments it twice. Otherwise every host
+// behind the skipped one is filed under the position of its predecessor and subsets hold the wrong hosts.
+func c15HostOffsetsAdvance(c *Ctx) {
+	fn := c.M("pkg/upstream/cluster", "subsetLoadBalancerBuilder", "initIndex")
+	if fn == nil {
+		c.Unresolved("C15.R10", "subsetLoadBalancerBuilder.initIndex")
+		return
+	}
+	n := 0
+	for _, cl := range fn.AnonFuncs {
+		// the captured counter: a free variable whose loaded value is handed to Insert
+		var counter *ssa.FreeVar
+		forEachInstr(cl, false, func(_ *ssa.Function, in ssa.Instruction) {
+			call, ok := in.(*ssa.Call)
+			if !ok || methodName(call.Common()) != "Insert" {
+				return
+			}
+			args := argsOf(call.Common())
+			if len(args) == 0 {
+				return
+			}
+			if ld, ok := args[len(args)-1].(*ssa.UnOp); ok {
+				if fv, ok := ld.X.(*ssa.FreeVar); ok {
+					counter = fv
+				}
+			}
+		})
+		if counter == nil {
+			continue
+		}
+		n++
+		isInc := func(in ssa.Instruction) bool {
+			st, ok := in.(*ssa.Store)
+			if !ok || st.Addr != ssa.Value(counter) {
+				return false
+			}
+			bo, ok := st.Val.(*ssa.BinOp)
+			if !ok || bo.Op != token.ADD {
+				return false
+			}
+			k, isK := constInt(bo.Y)
+			ld, isLd := bo.X.(*ssa.UnOp)
+			return isK && k == 1 && isLd && ld.X == ssa.Value(counter)
+		}
+		skipped := existsPath(cl, nil, isReturn, isInc)
+		twice := false
+		for _, in := range instrsWhere(cl, isInc) {
+			if existsPath(cl, in, isInc, nil) != nil {
+				twice = true
+			}
+		}
+		// other writes of the counter inside the callback
+		other := false
+		forEachInstr(cl, false, func(_ *ssa.Function, in ssa.Instruction) {
+			if st, ok := in.(*ssa.Store); ok && st.Addr == ssa.Value(counter) && !isInc(in) {
+				other = true
+			}
+		})
+		pos := cl.Pos()
+		if skipped != nil {
+			pos = nearestPos(skipped)
+		}
+		c.Check("C15.R10", fmt.Sprintf("%s:host-offset-advances-once-per-host#%d", funcKey(fn), n), pos, skipped == nil && !twice && !other, "the position counter is incremented exactly once on every path through the callback", "the Range callback of initIndex can return without advancing the host position (or advances it twice): the positions recorded in the index no longer match hostSet.Get(n), so every host behind the affected one is filed under a neighbour's position - subsets and the default subset hold hosts that do not carry the requested metadata")
+	}
+	if n < 1 {
+		c.Unresolved("C15.R10", "the Range callback of initIndex that inserts the captured position counter into an index set")
+	}
+}
